@@ -110,6 +110,13 @@ int main(int argc, char **argv)
             v.push_back(v[0]), r.push_back(r[0]);
             bad |= same(v, r);
         }
+        else if (!strcmp(sc, "insert_self") || !strcmp(sc, "insert_self_realloc"))
+        { // insert(pos, v[a]): the argument is read after the shift (a >= pos) / after the old block was released (reallocation)
+            size_t cap = !strcmp(sc, "insert_self") ? 8 : 3;
+            fill(v, 3, cap), fill(r, 3, cap);
+            v.insert(v.begin() + 1, v[2]), r.insert(r.begin() + 1, r[2]);
+            bad |= same(v, r);
+        }
         else if (!strcmp(sc, "rend"))
         { // rend() == m_data - 1 (pointer before the block), rbegin()/rend() are not reverse iterators
             fill(v, 3, 3), fill(r, 3, 3);
